@@ -75,6 +75,8 @@ class UnitResult:
         self.solver_ms = 0
         self.verus_version = ''
         self.compile_errors = []
+        self.fallback = {}          # function -> why it is not verified in full mode
+        self.modes = {}
 
 def _short(fn):
     # "tp::m::Parser::parse_op" -> "Parser::parse_op" ; "tp::m::lemma_x" -> "lemma_x"
@@ -88,36 +90,82 @@ def run_unit(unit, repo_src=None, out_dir=None, extra_args=(), rlimit_mult=None,
     t0 = time.time()
     try:
         ensure_deps()
-        g = generate(unit, repo_src)
-    except (AnchorLost, LexError, KeyError, IndexError, AttributeError) as e:
-        res.status = 'undecided'; res.reason = 'overlay inapplicable: %s: %s' % (type(e).__name__, e)
-        res.wall_s = time.time() - t0
-        return res
-    res.gen = g
-    exp = unit.expect_counts
-    for k, v in exp.items():
-        if g.counters.get(k, 0) != v:
-            res.status = 'undecided'; res.reason = 'normalisation rule %s applied %d times, overlay expects %d' % (k, g.counters.get(k, 0), v)
-            res.wall_s = time.time() - t0
-            return res
+    except Exception as e:
+        res.status = 'undecided'; res.reason = 'setup failed: %s' % e; return res
+    modes = {}
     out_dir = out_dir or os.path.join(BUILD, 'gen')
     os.makedirs(out_dir, exist_ok=True)
     path = os.path.join(out_dir, unit.name + '.rs')
-    open(path, 'w').write(g.text())
-    res.gen_path = path
     rlib = glob.glob(os.path.join(DEPS, 'librust_decimal-*.rlib'))[0]
-    cmd = ['verus', path, '--extern', 'rust_decimal=' + rlib, '-L', 'dependency=' + DEPS, '--multiple-errors', '20',
-           '--output-json', '--time', '--error-format=json', '--num-threads', str(threads)]
-    if rlimit_mult: cmd += ['--rlimit', str(rlimit_mult)]
-    cmd += list(extra_args)
-    res.cmd = ' '.join(cmd)
-    try:
-        p = subprocess.run(cmd, capture_output=True, text=True, timeout=timeout, cwd=out_dir)
-    except subprocess.TimeoutExpired:
-        res.status = 'undecided'; res.reason = 'verus timed out after %ds' % timeout
-        res.wall_s = time.time() - t0
-        return res
+    p = None; g = None
+    for attempt in range(8):
+        # 1. generate; a proof hint whose anchor is lost demotes that function to contract-only verification
+        while True:
+            try:
+                g = generate(unit, repo_src, modes)
+                break
+            except AnchorLost as e:
+                k = getattr(e, 'fn_key', None)
+                if k and modes.get(k) is None:
+                    modes[k] = 'contract_only'; res.fallback[k] = 'contract_only: %s' % e
+                    continue
+                if k and modes.get(k) == 'contract_only':
+                    modes[k] = 'external'; res.fallback[k] = 'external: %s' % e
+                    continue
+                res.status = 'undecided'; res.reason = 'overlay inapplicable: %s' % e
+                res.wall_s = time.time() - t0
+                return res
+            except (LexError, KeyError, IndexError, AttributeError, AssertionError) as e:
+                res.status = 'undecided'; res.reason = 'overlay inapplicable: %s: %s' % (type(e).__name__, e)
+                res.wall_s = time.time() - t0
+                return res
+        res.gen = g
+        for k, v in unit.expect_counts.items():
+            if g.counters.get(k, 0) != v:
+                res.status = 'undecided'; res.reason = 'normalisation rule %s applied %d times, overlay expects %d' % (k, g.counters.get(k, 0), v)
+                res.wall_s = time.time() - t0
+                return res
+        open(path, 'w').write(g.text())
+        res.gen_path = path
+        cmd = ['verus', path, '--extern', 'rust_decimal=' + rlib, '-L', 'dependency=' + DEPS, '--multiple-errors', '20',
+               '--output-json', '--time', '--error-format=json', '--num-threads', str(threads)]
+        if rlimit_mult: cmd += ['--rlimit', str(rlimit_mult)]
+        cmd += list(extra_args)
+        res.cmd = ' '.join(cmd)
+        try:
+            p = subprocess.run(cmd, capture_output=True, text=True, timeout=timeout, cwd=out_dir)
+        except subprocess.TimeoutExpired:
+            res.status = 'undecided'; res.reason = 'verus timed out after %ds' % timeout
+            res.wall_s = time.time() - t0
+            return res
+        # 2. rejected before verification? isolate the functions the compiler complains about and retry
+        if '"verification-results"' in p.stdout and re.search(r'"(verified|errors)":\s*[1-9]', p.stdout):
+            break
+        owners = set(); unowned = []
+        for ln in p.stderr.split('\n'):
+            ln = ln.strip()
+            if not ln.startswith('{'): continue
+            try: d = json.loads(ln)
+            except Exception: continue
+            if d.get('level') != 'error' or d.get('message', '').startswith('aborting due to'): continue
+            own = None
+            for sp in d.get('spans', []):
+                li = sp['line_start'] - 1
+                if sp.get('is_primary') and 0 <= li < len(g.owner): own = g.owner[li]
+            if own and not str(own).startswith('ghost:'): owners.add(own)
+            else: unowned.append(d.get('message', ''))
+        if not owners:
+            break
+        progressed = False
+        for k in owners:
+            cur = modes.get(k)
+            nxt = 'contract_only' if cur is None else ('external' if cur == 'contract_only' else None)
+            if nxt:
+                modes[k] = nxt; res.fallback[k] = '%s: rejected by the verifier front end' % nxt; progressed = True
+        if not progressed:
+            break
     res.wall_s = time.time() - t0
+    res.modes = dict(modes)
     # stdout: JSON summary
     summary = None
     try:
